@@ -190,6 +190,18 @@ Lemma c16_will_event_id_named : forall connect_id generated, connect_id <> [] ->
   will_event_id (remote_ids connect_id generated) = connect_id.
 Proof. intros [ | c r] generated H; [contradiction | split; reflexivity]. Qed.
 
+(** C14, link layer: a connection the router itself dropped ([RemoteLink::start] ends with
+    [Error::Link]) sends no [Event::Disconnect] afterwards, whatever happens on its will
+    channel: no late signal carrying a connection id the router may already have given to
+    another client.  Conversely a Disconnect event is only sent when the link ended otherwise. *)
+Lemma c14_no_late_disconnect_after_router_drop : forall w,
+  fst (epilogue (classify (Some ELink)) w) = false.
+Proof. intros w. reflexivity. Qed.
+
+Lemma c14_disconnect_event_only_without_router_drop : forall r w,
+  fst (epilogue (classify r) w) = true -> r <> Some ELink.
+Proof. intros r w H E. subst r. discriminate H. Qed.
+
 Example c16_decision_example :
   epilogue (classify (Some (ENetworkIo ConnectionAborted))) WaitTimeout = (true, true) /\
   epilogue (classify (Some ELink)) WaitTimeout = (false, true) /\
